@@ -5,6 +5,7 @@ package harness
 import (
 	"errors"
 	"fmt"
+	"math"
 	"os"
 	"sort"
 	"testing"
@@ -132,7 +133,17 @@ func perturbModel(rt *rapid.T, mp *onnx.ModelProto) string {
 		}
 	case "init-dims":
 		tp := g.Initializer[rapid.IntRange(0, len(g.Initializer)-1).Draw(rt, "init")]
-		switch rapid.IntRange(0, 6).Draw(rt, "dimsKind") {
+		switch rapid.IntRange(0, 8).Draw(rt, "dimsKind") {
+		case 7, 8:
+			// zeros, negatives and wrapping extents, with a payload of the wrapped element count
+			dims, k := genHostileDims(rt)
+			tp.Dims, tp.DataType = dims, 1
+			tp.RawData, tp.FloatData, tp.DoubleData, tp.Int32Data, tp.Int64Data, tp.Uint64Data = nil, nil, nil, nil, nil, nil
+			if rapid.Bool().Draw(rt, "hostileRaw") {
+				tp.RawData = make([]byte, 4*k)
+			} else {
+				tp.FloatData = make([]float32, k)
+			}
 		case 0:
 			tp.Dims = nil
 		case 1:
@@ -472,12 +483,15 @@ func FuzzC18(f *testing.F) {
 	// hostile constants: payload length off by one, negative varint dims, huge dims
 	tp := encodeTensor("w", []int{2, 2}, []float32{1, 2, 3, 4}, false)
 	tp.RawData = tp.RawData[:15]
-	for _, dims := range [][]int64{{2, 2}, {-1}, {1 << 62, 1 << 62}, {0}, {3}, {-2, -2}, {-4, -1}, {-1, -1, 4}} {
+	for _, dims := range [][]int64{{2, 2}, {-1}, {1 << 62, 1 << 62}, {0}, {3}, {-2, -2}, {-4, -1}, {-1, -1, 4}, {0, -1}, {3, 0, -2}, {1 << 32, 1 << 32}, {math.MaxInt64, math.MaxInt64}} {
 		t2 := proto.Clone(tp).(*onnx.TensorProto)
 		t2.Dims = dims
 		g := &onnx.GraphProto{Initializer: []*onnx.TensorProto{t2}}
 		f.Add(marshalModel(mkModel(g, 13)))
 		f.Add(marshalModel(mkModel(g, 12)))
+		t3 := proto.Clone(t2).(*onnx.TensorProto)
+		t3.RawData = nil
+		f.Add(marshalModel(mkModel(&onnx.GraphProto{Initializer: []*onnx.TensorProto{t3}}, 13)))
 	}
 	f.Fuzz(func(t *testing.T, b []byte) {
 		if v, _ := c18Oracle(b); v != "" {
